@@ -786,6 +786,20 @@ theorem single_reauth (s : St) (h : Reach s) :
   refine ⟨?_, d, hi.2.2.2.2.1, a, b⟩
   rw [← c]; omega
 
+/-- "Single" in the everyday sense: as long as every login delivers something usable (no `populate`
+    has left the vault empty), there is at most one authentication activity per *distinct* invalidated
+    vault item — however many requests were hit by the 401 on it — plus the initial authentication of
+    a vault that was constructed empty. (When a login delivers nothing, every requester that then
+    reports its 401 legitimately asks again: `single_reauth` counts those as `emptyHits`.) -/
+theorem single_reauth_when_logins_deliver (s : St) (h : Reach s) (hd : s.emptyPops = 0) :
+    s.episodes ≤ s.removed.length + (if s.startedEmpty then 1 else 0) ∧ s.removed.Nodup := by
+  obtain ⟨a, b, c, d⟩ := single_reauth s h
+  obtain ⟨_, he⟩ := invEmpty_of_reach s h
+  unfold InvEmpty at he
+  refine ⟨?_, c⟩
+  rw [hd] at he
+  omega
+
 /-- … and the other requesters hit by the same 401: invalidating a credential that is no longer
     the current one (somebody else already reported it, or it was replaced) touches nothing in the
     vault, blocks nobody and starts nothing, as long as some credential is available. -/
